@@ -48,6 +48,11 @@ CHECKS = {
    note="Trusted: Coq kernel, extraction, driver, harness; pytest's collection/reporting/exit status and the option plumbing (_populate_from_cli) are outside the model (compared through the subprocesses only); a doctest starting with '# pytest.skip' is disabled under pytest only and excluded by the statement's hypothesis.",
    technique="Coq proof (simulation between the on_error=raise and on_error=return runs + invariants by induction over parts) + differential correspondence in process + front-end-vs-front-end subprocess comparison",
    design="5/C15"),
+ 'C14': dict(
+   text="Coq theorems: C14_parse_contained (the model of DoctestParser.parse - labelling, grouping, _package_chunk with _locate_ps1_linenos / balanced_intervals / lazy directive extraction - returns parts or the parser's own error for EVERY answer of the tokenizer/ast/semicolon/directive oracles, raising ones included; no internal IndexError/assert escapes the wrapped region), C14_intervals_fuel, and over the model of core.parse_docstr_examples (google / freeform(asone) / auto as generators): C14_examples_contained (never propagates when producers raise only parse errors), C14_warned_iff_failed, C14_freeform_broken_no_example, C14_google_blocks (exactly the example blocks before the first broken one, numbered 0.. in order), C14_others_unaffected. Tie to the code: 7500/180000 grammar-generated strings (prompt fragments, brackets, quotes, backslashes, directive fragments, control characters, keywords, deep nesting) and google-structured docstrings: parse vs the extracted parser model (outcome class, failure phase, parts) and parse_docstr_examples x 3 styles vs the extracted Collect model (examples with num and lineno, warning, propagation), each call under a 5 s alarm; a sample embedded between two valid docstrings in a module x 3 styles (neighbours collected and pass). A genuine defect found by this fuzz (F11, lazily extracted malformed directive aborts the native runner) was repaired.",
+   note="Trusted: Coq kernel, extraction, driver, harness; 'never hangs' is tested under an alarm for the real tokenizer, not proved (the model terminates by Coq's guard condition); oracle answers come from CPython; split_google_docblocks is an oracle of the Collect model (its own model is in the C08 check).",
+   technique="Coq proof (every Err of the parser model is a parse error: induction over the model's functions; generator containment) + differential correspondence on grammar fuzz + direct escape/timeout/neighbour search",
+   design="5/C14"),
 }
 
 NOT_APPLICABLE = {}
